@@ -2,6 +2,12 @@
 
 NOT_YET = "check not built yet in this round (design in DESIGN.md section 6); will be claimed when its Props file, driver ops and harness exist"
 
+# checks that exist but are temporarily not claimed (reason shown under not_applicable)
+PENDING = {
+    "C07": "check exists (harness/props/c07.py, Props/C07.lean) but its model is being brought in line with fix commit 3d8c7c9b in /repo; claimed again once correspondence holds",
+    "C15": "check exists (harness/props/c15.py, Props/C15.lean) but its model is being brought in line with fix commit 94b833ce in /repo; claimed again once correspondence holds",
+}
+
 # pid -> dict(technique, level_text, level_note, design_ref)   (only claimed properties)
 CLAIMED = {
     "C19": dict(
